@@ -8,6 +8,11 @@ What is read off the source (Python `ast`), fail-closed:
       operations._format_result_details : details[0].upper()  (FrdIndex0)  |  details[:1].upper()  (FrdSlice)
       composites.Not.build_description  : sets transformation.negative on the shared object (NotMutates)
                                           | passes a new transformer with the negation flipped (NotFresh)
+      composites.AllOf / AnyOf.build_description : the relationship word is one constant (RelOneWord: rel_and / rel_or,
+                                          and rel_all_neg / rel_any_neg are emitted equal to them: the source has no other word)
+                                          | `W1 if transformation.negative else W2` (RelByNegation: W1 -> rel_all_neg /
+                                          rel_any_neg, W2 -> rel_and / rel_or).  The four words are exported as they are in the
+                                          source; that W1 of all_of is the word of any_of (De Morgan) is a theorem, not a pin.
 How: every function listed in SPEC is located, its AST is normalised (string constants and integer constants > 1 replaced
 by placeholders, docstrings dropped), the dump is hashed and compared with the recorded shape(s); the constants, in source
 order, are bound to the names given in SPEC.  Any function that moved, changed shape or changed its number of constants
@@ -114,6 +119,7 @@ def find(tree, qual):
 # (file under lemoncheesecake/matching/, qualified name, [names bound to the constants in source order])
 # the recorded shapes are in matchers_shapes.py: {"file:qualname": {shape hash: variant name or None}}
 # a name starting with "_" means: constant checked to be present but not exported; "=literal" means it must equal literal.
+# a dict instead of the list: {variant name of the recognised shape: names}.
 SPEC = [
     ("matcher.py", "CONJUGATION_FORMS",
      ["cf_pat0", "cf_pat1", "cf_pat2", "cf_pat3", "cf0_c", "cf0_cn", "cf0_in", "cf1_c", "cf1_cn", "cf1_in",
@@ -128,8 +134,8 @@ SPEC = [
     ("matchers/composites.py", "_build_multi_line_description", ["=\n", "ml_head", "ml_prefix_rel", "ml_prefix_first"]),
     ("matchers/composites.py", "_build_single_line_description_if_suitable", ["=\n", "sl_join_format", "sl_limit"]),
     ("matchers/composites.py", "_build_composite_description", []),
-    ("matchers/composites.py", "AllOf.build_description", ["rel_and"]),
-    ("matchers/composites.py", "AnyOf.build_description", ["rel_or"]),
+    ("matchers/composites.py", "AllOf.build_description", {"RelOneWord": ["rel_and"], "RelByNegation": ["rel_all_neg", "rel_and"]}),
+    ("matchers/composites.py", "AnyOf.build_description", {"RelOneWord": ["rel_or"], "RelByNegation": ["rel_any_neg", "rel_or"]}),
     ("matchers/composites.py", "Anything.__init__", ["w_anything"]),
     ("matchers/composites.py", "Anything.build_description", []),
     ("matchers/composites.py", "anything", []),
@@ -228,6 +234,10 @@ def generate(repo):
             _terror("%s:%s has an unrecognised shape %s (known: %s): the model of this function is not known to describe it"
                     % (f, qual, h, ", ".join(sorted(known))))
         variants[qual] = known[h]
+        if isinstance(names, dict):
+            if known[h] not in names:
+                _terror("%s:%s: no constant names for the variant %r" % (f, qual, known[h]))
+            names = names[known[h]]
         if len(consts) != len(names):
             _terror("%s:%s has %d constants, %d expected" % (f, qual, len(consts), len(names)))
         for n, c in zip(names, consts):
@@ -238,6 +248,14 @@ def generate(repo):
                 if n in vals:
                     _terror("duplicate table entry " + n)
                 vals[n] = c
+    # a composite whose build_description has a single relationship word uses it under every transformer
+    for neg, pos, qual in (("rel_all_neg", "rel_and", "AllOf.build_description"), ("rel_any_neg", "rel_or", "AnyOf.build_description")):
+        if variants[qual] == "RelOneWord":
+            if neg in vals:
+                _terror("duplicate table entry " + neg)
+            vals[neg] = vals[pos]
+        elif variants[qual] != "RelByNegation" or neg not in vals:
+            _terror("%s: unknown variant %r" % (qual, variants[qual]))
     out = ["(* GENERATED by harness/tables_matchers.py from %s*.py -- do not edit. *)" % BASE,
            "From Coq Require Import List NArith ZArith.", "Import ListNotations.",
            "From LCC Require Import Model.PyVal Model.Matcher.", ""]
